@@ -257,3 +257,85 @@ def gen_reset_case(rng):
         lines.append("step %d" % rng.choice(STEPS))
     lines += ["step 1000", "step 1000", "thread-result"]
     return lines
+
+
+def gen_c09_prog(rng):
+    """C09 (scheduling part): threads waiting on timers and on each other (waitthread), no host objects"""
+    nl = rng.randint(2, 5)
+    mk = Marks()
+    prog = []
+    for i in range(nl):
+        body = [mk.next()]
+        for _ in range(rng.randint(1, 5)):
+            r = rng.random()
+            if r < 0.45:
+                body.append(("wait", rng.choice(DURS + [1000])))
+            elif r < 0.65 and i + 1 < nl:
+                body.append(("thread", rng.randint(i + 1, nl - 1)))
+            elif r < 0.85 and i + 1 < nl:
+                body.append(("waitthread", rng.randint(i + 1, nl - 1)))
+            elif r < 0.9:
+                body.append(("pause",))
+            body.append(mk.next())
+        prog.append(body)
+    return prog
+
+
+def gen_c09_case(rng, prog=None, cut=None):
+    prog = prog or gen_c09_prog(rng)
+    lines = ["reset", script_line(prog), "callv m t0"]
+    for _ in range(rng.randint(3, 9)):
+        if rng.random() < 0.25:
+            lines.append("callv m t%d" % rng.randrange(len(prog)))
+        lines.append("step %d" % rng.choice(STEPS))
+    lines += ["step 1000", "step 1000"]
+    k = cut if cut is not None else rng.randint(3, len(lines))
+    return lines[:k] + ["save", "load"] + lines[k:], lines, k
+
+
+VAR_SETUP = [
+    'local.i = 123456789', 'local.s = "abc def"', 'local.a[1] = 5', 'local.a[2] = "x"', 'local.a["k"] = 7',
+    'local.b = local.a', 'local.c = 1::2::"three"', 'local.f = 1.5', 'local.n = NIL', 'local.v = (1 2 3)',
+    'local.me = local', 'group.g = 77', 'local.e = ""', 'local.big = 4294967297', 'local.neg = -5',
+    'local.aa[1][2] = 9', 'local.ch = "abc"[1]',
+]
+VAR_PRINTS = [
+    'println "i" local.i', 'println "s" local.s', 'println "a" local.a[1] local.a[2] local.a["k"]',
+    'println "b" local.b[1] local.b[2]', 'println "c" local.c[1] local.c[3]', 'println "f" local.f',
+    'println "n" local.n', 'println "v" local.v', 'println "me" (local.me == local)', 'println "g" group.g',
+    'println "e" local.e', 'println "big" local.big', 'println "neg" local.neg', 'println "aa" local.aa[1][2]',
+    'println "ch" local.ch', 'println "sz" local.a.size',
+]
+VAR_MUTS = ['local.a[1] = 6', 'local.b[2] = "y"', 'local.i = local.i + 1', 'local.s = local.s + "!"', 'group.g = group.g + 1',
+            'local.a[3] = local.i', 'local.aa[1][2] = local.aa[1][2] * 2']
+
+
+def gen_vars_script(rng):
+    """C09 (values part, implementation A/B only): locals of every archivable kind set before a wait,
+    mutated and printed after it (shared arrays must still be shared)"""
+    nl = rng.randint(1, 3)
+    out = []
+    for i in range(nl):
+        out.append("t%d:" % i)
+        setup = rng.sample(VAR_SETUP, rng.randint(3, len(VAR_SETUP)))
+        # keep dependencies: b needs a
+        if 'local.b = local.a' in setup and 'local.a[1] = 5' not in setup:
+            setup.remove('local.b = local.a')
+        out += setup
+        if i + 1 < nl and rng.random() < 0.7:
+            out.append("thread t%d" % (i + 1))
+        for _ in range(rng.randint(1, 3)):
+            out.append("wait %s" % secs(rng.choice([125, 250, 500])))
+            out += rng.sample(VAR_MUTS, rng.randint(0, 3))
+            out += rng.sample(VAR_PRINTS, rng.randint(2, 8))
+        out.append("end")
+    return "\n".join(out) + "\n"
+
+
+def gen_vars_case(rng):
+    src = gen_vars_script(rng)
+    lines = ["reset", "script m %s" % src.encode().hex(), "callv m t0"]
+    for _ in range(rng.randint(3, 8)):
+        lines.append("step %d" % rng.choice([50, 125, 125, 250, 300]))
+    lines += ["step 1000", "step 1000"]
+    return lines, src
